@@ -1141,13 +1141,15 @@ pub fn blocking_history() {
     drop(stranded);
 }
 
-/// Sweep of the notification predicate (C05 a) - cheap enough to enumerate: the available index
-/// is walked through all 65536 values on a real event-idx queue; at every value the device's
-/// `avail_event` field is set to candidate values and `should_notify()` is compared with the
+/// Sweep of the notification predicate (C05 a): the available index is walked through all 65536
+/// values on a real event-idx queue; before each batch the device's `avail_event` field is set to a
+/// candidate value, the batch is made available and `should_notify()` is asked exactly once
+/// ("among the entries made available since the driver last checked") and compared with the
 /// specification's `vring_need_event(event, new, old)`: whenever the specification says "notify",
-/// the driver must say so too. Quick tier: batch sizes 1, 2 and SIZE with a band of event values
-/// around the batch and the extremes; thorough tier: additionally the complete 2^16 x 2^16
-/// (index, event) square for batch size 1.
+/// the driver must say so too. One candidate per walk through the index space, the walks spread
+/// over 16 threads. Quick tier: batch sizes 1, 2 and 4 with a band of +-8 event values around both
+/// ends of the batch and the extremes; thorough tier: batch size 1 with every event value within
+/// +-2048 of the new index and the extremes.
 pub fn notify_sweep(t: crate::runner::Tier) -> crate::runner::ExtraResult {
     use std::sync::Mutex;
     use std::sync::atomic::{AtomicU64, Ordering};
@@ -1207,7 +1209,10 @@ pub fn notify_sweep(t: crate::runner::Tier) -> crate::runner::ExtraResult {
                     // candidate event value per walk through all 65536 index values; the walks are
                     // distributed over the threads.
                     const QUICK_CANDIDATES: u32 = 17 + 17 + 8;
-                    let n_cand: u32 = if full { 65536 } else { QUICK_CANDIDATES };
+                    // thorough tier: a band of +-2048 around the end of the batch and the extremes
+                    // (the complete 2^16 x 2^16 square costs a submission per pair: a quarter of an
+                    // hour on this machine, for pairs that differ from the band only in distance)
+                    let n_cand: u32 = if full { 4096 + 8 } else { QUICK_CANDIDATES };
                     let mut cand = th;
                     while cand < n_cand && bad.lock().unwrap().is_empty() {
                         let walk_end = avail + 65536;
@@ -1216,7 +1221,11 @@ pub fn notify_sweep(t: crate::runner::Tier) -> crate::runner::ExtraResult {
                             let old = avail as u16;
                             let new = (avail + batch) as u16;
                             let event: u16 = if full {
-                                cand as u16
+                                if cand < 4096 {
+                                    new.wrapping_add((cand as i32 - 2048) as u16)
+                                } else {
+                                    [0u16, 1, 0x7fff, 0x8000, 0xfffe, 0xffff, old.wrapping_add(0x8000), new.wrapping_add(0x7fff)][(cand - 4096) as usize]
+                                }
                             } else if cand < 17 {
                                 old.wrapping_add((cand as i32 - 8) as u16)
                             } else if cand < 34 {
@@ -1258,9 +1267,9 @@ pub fn notify_sweep(t: crate::runner::Tier) -> crate::runner::ExtraResult {
     let violations = bad.into_inner().unwrap();
     crate::runner::ExtraResult {
         evaluations: evals.load(Ordering::Relaxed),
-        exhaustive: full,
+        exhaustive: false,
         description: if full {
-            "should_notify() asked once per submission vs vring_need_event for the complete 2^16 x 2^16 (available index, device event index) square at batch size 1, on a real event-idx VirtQueue walked through all index values once per event value".into()
+            "should_notify() asked once per submission vs vring_need_event for all 65536 available-index values at batch size 1 and every event index within +-2048 of the new index plus the extremes (4104 walks through the index space)".into()
         } else {
             "should_notify() asked once per batch vs vring_need_event, for all 65536 available-index values, batch sizes 1/2/4, event indices in a band of +-8 around both ends of the batch plus extremes (42 walks through the index space)".into()
         },
